@@ -263,6 +263,37 @@ def check_heap_layout(case):
     return ("hlay", times[0][0] >= 2.0 ** 31), fails
 
 
+def heap_labelings(n, k):
+    """All arrays of length n over the levels 0..k-1 that are (weakly) heap-ordered: every order type a heap of n
+    entries with at most k distinct times can have."""
+    out = []
+    a = [0] * n
+
+    def rec(j):
+        if j == n:
+            out.append(tuple(a))
+            return
+        for v in range(a[(j - 1) // 2] if j else 0, k):
+            a[j] = v
+            rec(j + 1)
+    rec(0)
+    return out
+
+
+def check_heap_layout_multi(case):
+    """case = ("hlayN", times, labeling, slots, new times): check_heap_layout for every slot x new time."""
+    _, times, perm, slots, newts = case
+    fails = []
+    sig = None
+    for slot in slots:
+        for newt in newts:
+            sig, f = check_heap_layout(("hlay", times, perm, (slot,), newt))
+            fails += f
+        if fails:
+            break
+    return ("hlayN", len(perm), sig[1]), fails
+
+
 def check_update(case):
     """case = ("upd", a, b, [c...]): an instance advanced in place with update() (as the event handlers do with the
     time stamps of units) must behave exactly like a fresh instance with the new value."""
@@ -307,7 +338,7 @@ def check_update(case):
     return ("upd", a[0] >= 2.0 ** 31), fails
 
 
-DISPATCH = {"hlay": check_heap_layout, "upd": check_update, "heap": check_heap, "add": check_add, "cmp": check_cmp, "ff": check_from_float, "chain": check_chain}
+DISPATCH = {"hlayN": check_heap_layout_multi, "hlay": check_heap_layout, "upd": check_update, "heap": check_heap, "add": check_add, "cmp": check_cmp, "ff": check_from_float, "chain": check_chain}
 
 
 def heap_orders(n):
@@ -340,6 +371,14 @@ def cases(ctx):
                 for slot in range(n):
                     for newt in (times[2], (base + 1.0, 0.5)):
                         yield ("hlay", times, perm, (slot,), newt)
+    # deeper heaps: every weakly heap-ordered array of 15 entries (4 levels) over 3 neighbouring time values, every
+    # stale slot: a hole filled from another subtree has to rise more than one level
+    for base in ([0.0, 2.0 ** 40] if big else [2.0 ** 40]):
+        three = [(base, 0.25), (base, up(0.25)), (base + 1.0, 0.0)]
+        for lab in heap_labelings(15, 3):
+            if lab[-1] == lab[0]:
+                continue  # the last entry is not smaller than anything: nothing can be out of order
+            yield ("hlayN", three, lab, tuple(range(15)) if big else tuple(range(3, 15)), ((base + 1.0, 0.5),))
     sub = [(0.0, 0.25), (0.0, 0.5), (1.0, 0.25), (1.0, down(0.5)), (1.0, 0.5), (2.0, 0.0), (2.0 ** 31, 0.5),
            (2.0 ** 52, 0.25), (INF, INF)]
     for a in sub:
